@@ -47,9 +47,9 @@ def run(ctx):
             for k in rng2.sample([1, 2, 3], rng2.randint(1, 3)):
                 if rng2.random() < 0.6:
                     during.append({"ev": "write", "k": k, "c": "c1", "d": rng2.choice(["a", "b", "H", "I"]), "m": "m0",
-                                   "delay": rng2.randint(0, 700)})
+                                   "delay": rng2.randint(0, 70)})
                 else:
-                    during.append({"ev": "delete", "k": k, "c": "c1", "delay": rng2.randint(0, 700)})
+                    during.append({"ev": "delete", "k": k, "c": "c1", "delay": rng2.randint(0, 70)})
             h = pre + [{"ev": "compact", "algo": 2, "during": during}]
             if rng2.random() < 0.5:
                 h.append({"ev": "write", "k": rng2.choice([1, 2, 3]), "c": "c1", "d": rng2.choice(["a", "b"]), "m": "m0"})
@@ -67,6 +67,8 @@ def run(ctx):
         trace = ctx.drive(binp, ["--script", script, "--mode", "throttled"], name="conc", timeout=2400)
         ctx.judge("BlobStoreTrace", trace, "trace_base.cfg", {}, nontrivial=volfam.nontrivial, label="conc")
         ctx.notes["executions_with_operations_during_a_running_compaction"] = len(conc)
+        ctx.notes["operations_that_completed_while_the_compaction_rpc_was_still_running"] = sum(
+            1 for line in open(trace) if '"overlap":true' in line)
     ctx.rule = ("executions = TLC-generated histories of VolumeImpl that contain a compaction commit or cleanup (G2 witnesses "
                 "over 2 keys x {empty, small, small2} x {no TTL, blob TTL + old client timestamp, blob TTL}, both compaction "
                 "algorithms, writes/deletes between compact and commit; G3 random depth 12) + seeded random histories, each on a "
@@ -78,7 +80,7 @@ def run(ctx):
         "hook; index-based compaction, commit and cleanup through the vacuum RPCs",
         "on the TTL volume no client timestamp in the past is used: such a write makes the whole volume expire at the next "
         "heartbeat (recorded under C09), which would mask compaction",
-        "operations during a RUNNING compaction: the volume server's compaction is throttled to 1 MB/s, 256 KB blobs, writes/deletes "
-        "on distinct keys are sent 20-720 ms after the compact RPC; they are recorded after the compaction event (its order "
+        "operations during a RUNNING compaction: 720 KB blobs make the copy last ~50-100 ms, writes/deletes "
+        "on distinct keys are sent 0-70 ms after the compact RPC (the evidence counts how many completed while it was still running); they are recorded after the compaction event (its order "
         "relative to them carries no meaning for a step that must be invisible)",
         "TTL expiry by elapsed time is not exercised here (blobs carry a 1h TTL and executions last milliseconds)"]
